@@ -15,6 +15,7 @@ pack.  The theorems `*_filed` in Lemmas/Index state the exact behaviour without 
 -/
 import Rustic.Lemmas.Index
 import Rustic.Lemmas.PackU32
+import Rustic.Lemmas.IndexLoad
 namespace Rustic.Props.C17
 open Rustic.Pack Rustic.Index
 
@@ -278,6 +279,168 @@ theorem mixed_pack_is_filed_under_first_blob_type :
       (by simp [unmarked]) { id := 7, tpe := .data, loc := ⟨40, 50, none⟩ } (by simp)
     simp [IndexPack.blobType] at this
   · exact ⟨_, List.mem_cons_self .., _, List.mem_cons_self .., _, List.mem_cons_of_mem _ (List.mem_cons_self ..), rfl, rfl⟩
+
+/-! ### loading the index files a repository LISTS (`GlobalIndex::new_from_collector` over `stream_all`)
+
+The theorems above are about "the index files" handed to the collector.  The repository lists index ids; each is fetched
+(`get_file`: backend read, MAC check + decryption, JSON) and each fetch may fail (`Model/IndexLoad.lean`).  The loop
+`for index in stream { collector.extend(index?.1.packs) }` returns the first error of the stream; so an `Ok` index was fed
+with EVERY listed file, and `has_iff` & co. hold for "the index files the repository lists", not for "the files that
+happened to load".  The stream order is arbitrary (parallel fetches): every permutation of the listing is covered. -/
+section Loading
+open Rustic.IndexLoad
+
+/-- `out` is a possible outcome of `new_from_collector(IndexCollector::new(m))` on the stream of per-file results `rs`
+(for `Ok`: ANY id-sorted permutation the unstable sort may produce, as in `Loaded`). -/
+def LoadOutcome (m : IndexType) (rs : List (Except LoadErr IndexFile)) : Except LoadErr Index → Prop
+  | .error e => firstError rs = some e
+  | .ok idx => firstError rs = none ∧ Loaded m (oks rs) idx
+
+/-- The executable model (`loadResults`, run by the driver against the real code) is one possible outcome. -/
+theorem loadResults_is_outcome (m : IndexType) (rs : List (Except LoadErr IndexFile)) :
+    LoadOutcome m rs (loadResults m rs) := by
+  rw [loadResults_eq]
+  cases h : firstError rs with
+  | some e => exact h
+  | none => exact ⟨h, load_is_loaded m _⟩
+
+/-- If ANY file of the stream fails to load, the load fails — with the error of a file that failed (the first in stream
+order); no index is handed out. -/
+theorem load_fails_if_any_file_fails (m : IndexType) (rs : List (Except LoadErr IndexFile))
+    (out : Except LoadErr Index) (h : LoadOutcome m rs out) (hf : ∃ e, Except.error e ∈ rs) :
+    ∃ e, out = .error e ∧ Except.error e ∈ rs := by
+  cases out with
+  | error e => exact ⟨e, rfl, firstError_mem h⟩
+  | ok idx =>
+    have := firstError_isSome_iff.mpr hf
+    rw [h.1] at this; cases this
+
+/-- An `Ok` index means every file of the stream loaded, and the index is a `Loaded` outcome of exactly those files
+(all of them, in stream order). -/
+theorem load_ok_means_every_file_loaded (m : IndexType) (rs : List (Except LoadErr IndexFile)) (idx : Index)
+    (h : LoadOutcome m rs (.ok idx)) :
+    ∃ files, rs = files.map Except.ok ∧ Loaded m files idx :=
+  ⟨oks rs, map_ok_oks h.1, h.2⟩
+
+/-- The executable model succeeds exactly when every file loads, and then it is `load` of all files. -/
+theorem load_ok_iff_all_files_load (m : IndexType) (rs : List (Except LoadErr IndexFile)) :
+    ((∃ idx, loadResults m rs = .ok idx) ↔ ∀ r ∈ rs, ∃ f, r = Except.ok f) ∧
+      ∀ files, loadResults m (files.map Except.ok) = .ok (load m files) := by
+  refine ⟨?_, fun files => ?_⟩
+  · rw [loadResults_eq, ← firstError_none_iff]
+    cases firstError rs <;> simp
+  · rw [loadResults_eq, firstError_map_ok, oks_map_ok]
+
+/-- `out` is a possible outcome of loading the index of a repository that lists the index files `listed`
+(streamed in any order). -/
+def RepoOutcome (m : IndexType) (listed : List RepoFile) (out : Except LoadErr Index) : Prop :=
+  ∃ stream : List RepoFile, stream.Perm listed ∧ LoadOutcome m (stream.map getFile) out
+
+/-- The executable model on the listing order is one possible outcome. -/
+theorem loadRepo_is_outcome (m : IndexType) (listed : List RepoFile) : RepoOutcome m listed (loadRepo m listed) :=
+  ⟨listed, .refl _, loadResults_is_outcome m _⟩
+
+/-- A repository with an index file that cannot be fetched (read error, damaged, not an index file) never yields an
+index: every outcome is an error, namely the fetch error of some listed file. -/
+theorem repo_load_fails_if_a_listed_file_fails (m : IndexType) (listed : List RepoFile) (out : Except LoadErr Index)
+    (h : RepoOutcome m listed out) (hf : ∃ r ∈ listed, ∃ e, getFile r = .error e) :
+    ∃ e, out = .error e ∧ ∃ r ∈ listed, getFile r = .error e := by
+  obtain ⟨stream, hperm, ho⟩ := h
+  obtain ⟨r, hr, e, he⟩ := hf
+  have : ∃ e, Except.error e ∈ stream.map getFile :=
+    ⟨e, List.mem_map.mpr ⟨r, hperm.mem_iff.mpr hr, he⟩⟩
+  obtain ⟨e', rfl, hm⟩ := load_fails_if_any_file_fails m _ out ho this
+  obtain ⟨r', hr', he'⟩ := List.mem_map.mp hm
+  exact ⟨e', rfl, r', hperm.mem_iff.mp hr', he'⟩
+
+/-- An `Ok` index of a repository: every LISTED index file was fetched, and the index is a `Loaded` outcome of a
+permutation of all of them. -/
+theorem repo_ok_means_every_listed_file_loaded (m : IndexType) (listed : List RepoFile) (idx : Index)
+    (h : RepoOutcome m listed (.ok idx)) :
+    (∀ r ∈ listed, ∃ f, getFile r = .ok f) ∧ ∃ files, files.Perm (readable listed) ∧ Loaded m files idx := by
+  obtain ⟨stream, hperm, hnone, hl⟩ := h
+  refine ⟨fun r hr => ?_, oks (stream.map getFile), oks_perm (hperm.map _), hl⟩
+  exact firstError_none_iff.mp hnone _ (List.mem_map.mpr ⟨r, hperm.mem_iff.mpr hr, rfl⟩)
+
+/-- "some index file THE REPOSITORY LISTS says `(t, id)` in a pack that is not marked for deletion" -/
+def RepoListsUnmarked (listed : List RepoFile) (t : BlobType) (id : Nat) : Prop :=
+  ∃ r ∈ listed, ∃ f, getFile r = .ok f ∧ ∃ p ∈ f.packs, ∃ b ∈ p.blobs, b.tpe = t ∧ b.id = id
+
+theorem repoListsUnmarked_iff (listed : List RepoFile) (t : BlobType) (id : Nat) :
+    RepoListsUnmarked listed t id ↔ ListedUnmarked (readable listed) t id := by
+  simp only [RepoListsUnmarked, ListedUnmarked, readable, mem_oks, List.mem_map]
+  constructor
+  · rintro ⟨r, hr, f, hf, rest⟩; exact ⟨f, ⟨r, hr, hf⟩, rest⟩
+  · rintro ⟨f, ⟨r, hr, hf⟩, rest⟩; exact ⟨r, hr, f, hf, rest⟩
+
+theorem wf_of_perm {files files' : List IndexFile} (hp : files.Perm files') (h : WF files') : WF files :=
+  fun p hp' => h p ((hp.flatMap_right _).mem_iff.mp hp')
+
+theorem listedUnmarked_of_perm {files files' : List IndexFile} (hp : files.Perm files') (t : BlobType) (id : Nat) :
+    ListedUnmarked files t id ↔ ListedUnmarked files' t id := by
+  simp only [ListedUnmarked, hp.mem_iff]
+
+/-- (1, for a repository) If loading returns an index, EVERY listed index file was loaded and `has(t, id)` succeeds
+exactly when the mode retains ids of type `t` and some listed index file lists `(t, id)` in an unmarked pack.
+(With a listed file that cannot be loaded there is no index: `repo_load_fails_if_a_listed_file_fails`.) -/
+theorem repo_has_iff (m : IndexType) (listed : List RepoFile) (idx : Index) (h : RepoOutcome m listed (.ok idx))
+    (hwf : WF (readable listed)) (t : BlobType) (id : Nat) :
+    (∀ r ∈ listed, ∃ f, getFile r = .ok f) ∧
+      (idx.has t id = true ↔ retainsIds m t = true ∧ RepoListsUnmarked listed t id) := by
+  obtain ⟨hall, files, hperm, hl⟩ := repo_ok_means_every_listed_file_loaded m listed idx h
+  refine ⟨hall, ?_⟩
+  rw [has_iff m files (wf_of_perm hperm hwf) idx hl, listedUnmarked_of_perm hperm, repoListsUnmarked_iff]
+
+/-- (2, for a repository) lookups: success iff listed by a listed file; the entry is a listing of a listed file. -/
+theorem repo_get_spec (m : IndexType) (listed : List RepoFile) (idx : Index) (h : RepoOutcome m listed (.ok idx))
+    (hwf : WF (readable listed)) (t : BlobType) (id : Nat) :
+    ((idx.getId t id).isSome = true ↔ retainsFull m t = true ∧ RepoListsUnmarked listed t id) ∧
+      ∀ e, idx.getId t id = some e → ∃ r ∈ listed, ∃ f, getFile r = .ok f ∧ e ∈ Rustic.Index.listed f.packs t id := by
+  obtain ⟨_, files, hperm, hl⟩ := repo_ok_means_every_listed_file_loaded m listed idx h
+  have hwf' := wf_of_perm hperm hwf
+  refine ⟨?_, fun e he => ?_⟩
+  · rw [get_succeeds_iff m files hwf' idx hl, listedUnmarked_of_perm hperm, repoListsUnmarked_iff]
+  · have := get_returns_a_listing m files hwf' idx hl t id e he
+    obtain ⟨p, hp, b, hb, ht, hid, hee⟩ := mem_listed.mp this
+    simp only [unmarked, List.mem_flatMap] at hp
+    obtain ⟨f, hf, hpf⟩ := hp
+    have hf' : f ∈ readable listed := hperm.mem_iff.mp hf
+    simp only [readable, mem_oks, List.mem_map] at hf'
+    obtain ⟨r, hr, hrf⟩ := hf'
+    exact ⟨r, hr, f, hrf, mem_listed.mpr ⟨p, hpf, b, hb, ht, hid, hee⟩⟩
+
+/-- (4, for a repository) the size totals are the sums over the unmarked packs of ALL listed index files. -/
+theorem repo_total_size_sum (m : IndexType) (listed : List RepoFile) (idx : Index) (h : RepoOutcome m listed (.ok idx)) :
+    idx.totalSize .tree + idx.totalSize .data = ((unmarked (readable listed)).map (·.packSize)).sum ∧
+      (readable listed).length = listed.length := by
+  obtain ⟨hall, files, hperm, hl⟩ := repo_ok_means_every_listed_file_loaded m listed idx h
+  refine ⟨?_, ?_⟩
+  · rw [(total_size_sum m files idx hl).2]
+    exact ((hperm.flatMap_right _).map _).sum_nat
+  · have hn : firstError (listed.map getFile) = none :=
+      firstError_none_iff.mpr fun r hr => by
+        obtain ⟨x, hx, rfl⟩ := List.mem_map.mp hr
+        exact hall x hx
+    have := congrArg List.length (map_ok_oks hn)
+    simp only [List.length_map] at this
+    exact this.symm
+
+/-- Witness: two listed files, the second unreadable in each of the four ways — no index in any mode and either stream
+order, although the first file alone would load (and then lacks blob `3`, which only the second file lists). -/
+theorem unreadable_file_witness :
+    let f1 : IndexFile := { packs := [{ id := 10, size := none, blobs := [⟨5, .data, ⟨0, 40, none⟩⟩] }], packsToDelete := [] }
+    let f2 : IndexFile := { packs := [{ id := 13, size := none, blobs := [⟨3, .data, ⟨0, 61, none⟩⟩] }], packsToDelete := [] }
+    let a : RepoFile := { readFails := false, stored := .sealed (.file f1) }
+    (∀ b ∈ [({ readFails := true, stored := .sealed (.file f2) } : RepoFile), { readFails := false, stored := .damaged },
+             { readFails := false, stored := .sealed .unsupported }, { readFails := false, stored := .sealed .notIndexJson }],
+        ∀ m ∈ [IndexType.full, .dataIds, .onlyTrees],
+          (loadRepo m [a, b]).toOption.isNone = true ∧ (loadRepo m [b, a]).toOption.isNone = true) ∧
+      (loadRepo .full [a, { readFails := true, stored := .sealed (.file f2) }]).toOption.isNone = true ∧
+      ((loadRepo .full [a]).toOption.map (·.has .data 3)) = some false ∧
+      ((loadRepo .full [a, { readFails := false, stored := .sealed (.file f2) }]).toOption.map (·.has .data 3)) = some true := by
+  decide
+
+end Loading
 
 /-! ### non-vacuity -/
 
